@@ -609,6 +609,9 @@ func genPlan(prop, tier string, seed uint64, faults bool) *Plan {
 		p.Metrics = r.Chance(0.5)
 		g.genConc(p)
 	}
+	// a tuning knob no invariant may depend on: debug logging of every source
+	// (the policies dump their state in blocks that only run then); drawn last
+	p.Debug = r.Chance(0.12)
 	return p
 }
 
